@@ -5,6 +5,7 @@ package gen
 
 import (
 	"fmt"
+	"strconv"
 	"strings"
 
 	"github.com/IrineSistiana/mosproxy/verifsim/plan"
@@ -1873,6 +1874,24 @@ func genC15(r *rng, p *plan.Plan) {
 			add(src, at, si)
 		}
 		delete(lastConn, key)
+	}
+	// first contact of a subnet nobody has seen yet (or not for minutes): its
+	// first queries arrive in the same instant over separate transports, so
+	// the evaluations that create its bucket overlap
+	for n := r.intn(3); n > 0; n-- {
+		fresh4 := fmt.Sprintf("198.18.%d.", 10+n)
+		fresh6 := fmt.Sprintf("2001:db8:%x:", 0xc0+n)
+		at := r.i64(20_000, t)
+		for k := r.rng(4, 12); k > 0; k-- {
+			si := r.intn(len(rp.Servers))
+			src := pickSrc(si, []string{fresh4 + strconv.Itoa(1+r.intn(200))}, []string{fresh6 + fmt.Sprintf(":%x", 1+r.intn(200))})
+			delete(lastConn, fmt.Sprintf("%s/%d", src, si))
+			add(src, at+r.i64(0, 30), si)
+			delete(lastConn, fmt.Sprintf("%s/%d", src, si))
+		}
+	}
+	if r.p(0.6) && p.Knobs.YieldDensity == 0 {
+		p.Knobs.YieldDensity = []float64{0.1, 0.3, 0.6}[r.intn(3)]
 	}
 	// victims: a handful of queries, far inside their own budget
 	for n := r.rng(2, 6); n > 0; n-- {
